@@ -532,19 +532,15 @@ Proof.
 Qed.
 
 (* ------------------------------------------------------------------ reset / recycle *)
-Lemma free_loop_ok : forall ring a c, pages_ok ring ->
-  pages_ok (fst (free_loop P a c ring)) /\
-  snd (free_loop P a c ring) = c - P * (zlen ring - zlen (fst (free_loop P a c ring))).
+Lemma firstn_pages_ok n (l : list page) : pages_ok l -> pages_ok (firstn n l).
 Proof.
-  induction ring as [|p r IH]; intros a c H; cbn [free_loop].
-  - simpl. split; [constructor|lia].
-  - destruct (a * 2 <? c).
-    + destruct (IH a (c - P) (Forall_inv_tail H)) as [H1 H2]. split; [exact H1|].
-      rewrite H2, zlen_cons. lia.
-    + cbn [fst snd]. split; [exact H|lia].
+  revert l. induction n as [|n IH]; intros [|x l] H; simpl; try constructor.
+  - exact (Forall_inv H).
+  - apply IH. exact (Forall_inv_tail H).
 Qed.
 
-Lemma reset_ok st fs bs : Inv_core st fs bs -> Inv_core (reset P st) [] [] /\ (pages st <> [] -> used (reset P st) = 0).
+Lemma reset_ok keep st fs bs : Inv_core st fs bs ->
+  Inv_core (reset P keep st) [] [] /\ (pages st <> [] -> used (reset P keep st) = 0).
 Proof.
   intros I. unfold reset. destruct (pages st) as [|f rest] eqn:Epg.
   - destruct (inv_empty_nil _ _ _ I Epg) as [-> ->]. split; [apply inv_set_used; exact I|congruence].
@@ -553,18 +549,16 @@ Proof.
     rewrite Epg in *.
     pose proof (Forall_inv Hpg) as Hf. cbv beta in Hf. apply Forall_inv_tail in Hpg.
     assert (Hring : pages_ok (rest ++ spare st)) by (apply Forall_app; split; assumption).
-    destruct (free_loop_ok (rest ++ spare st)
-                (((if avg st =? 0 then used st else avg st) * 3 / 4 + used st / 4)) (cap st) Hring) as [H1 H2].
     destruct (half_split (pdata f) Hf) as (a & b & Hab & Ha & Hb).
     constructor; cbn [pages spare fc fl bc bl cap].
     + constructor; [exact Hf|constructor].
-    + exact H1.
+    + apply firstn_pages_ok. exact Hring.
     + reflexivity.
     + exists a, b. simpl. rewrite app_nil_r. auto.
     + discriminate.
     + intros _. repeat split; lia.
     + exists (- (P / 2)). simpl. change (zlen (@nil Z)) with 0. repeat split; lia.
-    + rewrite H2, Hcap. rewrite zlen_app, !zlen_cons. change (zlen (@nil page)) with 0. lia.
+    + rewrite zlen_cons. change (zlen (@nil page)) with 0. lia.
 Qed.
 
 Lemma remove_nth_ok {A} (Q : A -> Prop) : forall i (l : list A) p r, remove_nth i l = Some (p, r) ->
@@ -734,7 +728,7 @@ Lemma step_ok st o fs bs : Inv st fs bs -> wf_op o ->
   | None => alloc_fails \/ is_recycle o
   end.
 Proof.
-  intros [I Hu] Hwf. destruct o as [iov off len| |i]; cbn [step].
+  intros [I Hu] Hwf. destruct o as [iov off len|keep|i]; cbn [step].
   - cbn [wf_op] in Hwf. pose proof (emitter_ok st iov off len fs bs I Hwf) as H.
     destruct (emitter P alloc st iov off len) as [st'|]; [|left; exact H].
     destruct H as [H Hu']. cbn [spec_step fst snd]. destruct (off <? 0).
@@ -742,7 +736,7 @@ Proof.
       rewrite <- app_assoc, zlen_app. f_equal. lia.
     + exists fs, (bs ++ concat iov). split; [split; [exact H|rewrite zlen_app; lia]|].
       rewrite <- app_assoc. reflexivity.
-  - exists [], []. destruct (reset_ok st fs bs I) as [H Hu']. split; [|reflexivity]. split; [exact H|].
+  - exists [], []. destruct (reset_ok keep st fs bs I) as [H Hu']. split; [|reflexivity]. split; [exact H|].
     change (zlen (@nil Z)) with 0. unfold reset in *. destruct (pages st) eqn:E.
     + reflexivity.
     + reflexivity.
@@ -855,25 +849,53 @@ Proof.
   intros Hl. rewrite (H1 Hl), (abs_ok P st fs bs (proj1 I)). destruct I as [_ ->]. rewrite zlen_app. reflexivity.
 Qed.
 
-(* reset empties the stream; whatever pages were retained, later histories refine from empty *)
+(* reset empties the stream; however many pages the pool policy retains, later histories refine from empty *)
 Theorem reset_reuse : forall P alloc, 0 < P -> P mod 2 = 0 ->
-  forall h0 st0, Forall wf_op h0 -> run P alloc est_init h0 = Some st0 ->
-  abs P (reset P st0) = [] /\ used (reset P st0) = 0 /\ start_off (reset P st0) = 0 /\
-  forall h st, Forall wf_op h -> run P alloc (reset P st0) h = Some st ->
+  forall h0 st0 keep, Forall wf_op h0 -> run P alloc est_init h0 = Some st0 ->
+  abs P (reset P keep st0) = [] /\ used (reset P keep st0) = 0 /\ start_off (reset P keep st0) = 0 /\
+  (length (pages (reset P keep st0)) <= 1)%nat /\
+  forall h st, Forall wf_op h -> run P alloc (reset P keep st0) h = Some st ->
     abs P st = fst (spec h) /\ start_off st = snd (spec h) /\ used st = zlen (fst (spec h)).
 Proof.
-  intros P alloc H0 H2 h0 st0 Hwf0 Hr0. pose proof (page_size_ge2 P H0 H2) as HP.
+  intros P alloc H0 H2 h0 st0 keep Hwf0 Hr0. pose proof (page_size_ge2 P H0 H2) as HP.
   destruct (reach_inv P alloc h0 st0 HP Hwf0 Hr0) as (fs & bs & I & _).
-  assert (IR : Inv P (reset P st0) [] []).
-  { pose proof (step_ok P alloc HP st0 Reset fs bs I Logic.I) as H. cbn [step] in H.
+  assert (IR : Inv P (reset P keep st0) [] []).
+  { pose proof (step_ok P alloc HP st0 (Reset keep) fs bs I Logic.I) as H. cbn [step] in H.
     destruct H as (fs' & bs' & I' & E). cbn [spec_step] in E. injection E as E _.
     apply app_eq_nil in E. destruct E as [-> ->]. exact I'. }
   destruct (inv_obs P _ _ _ IR) as (Ha & Hs & _ & Hu & _).
   split; [exact Ha|]. split; [rewrite Hu, Ha; reflexivity|]. split; [exact Hs|].
-  intros h st Hwf Hr. pose proof (run_ok P alloc HP h (reset P st0) [] [] IR Hwf) as H. rewrite Hr in H.
+  split. { unfold reset. destruct (pages st0) eqn:E; cbn [pages set_used]; [rewrite E|]; simpl; lia. }
+  intros h st Hwf Hr. pose proof (run_ok P alloc HP h (reset P keep st0) [] [] IR Hwf) as H. rewrite Hr in H.
   destruct H as (fs' & bs' & I' & E). change (fold_left spec_step h ([] ++ [], - zlen (@nil Z))) with (spec h) in E.
   destruct (inv_obs P _ _ _ I') as (Ha' & Hs' & _ & Hu' & _).
   rewrite <- E. cbn [fst snd]. rewrite Ha' in Hu'. repeat split; assumption.
+Qed.
+
+(* the pool policy cannot be observed: two resets retaining different numbers of pages agree on everything the stream
+   interface returns, now and after any common later history that both survive *)
+Theorem reset_policy_unobservable : forall P alloc, 0 < P -> P mod 2 = 0 ->
+  forall h0 st0 k1 k2 h st1 st2, Forall wf_op h0 -> run P alloc est_init h0 = Some st0 -> Forall wf_op h ->
+  run P alloc (reset P k1 st0) h = Some st1 -> run P alloc (reset P k2 st0) h = Some st2 ->
+  abs P st1 = abs P st2 /\ used st1 = used st2 /\ start_off st1 = start_off st2 /\
+  forall size, used st1 <= size -> pages st1 <> [] -> pages st2 <> [] -> copy_buffer P st1 size = copy_buffer P st2 size.
+Proof.
+  intros P alloc H0 H2 h0 st0 k1 k2 h st1 st2 Hwf0 Hr0 Hwf Hr1 Hr2. pose proof (page_size_ge2 P H0 H2) as HP.
+  destruct (reset_reuse P alloc H0 H2 h0 st0 k1 Hwf0 Hr0) as (_ & _ & _ & _ & R1).
+  destruct (reset_reuse P alloc H0 H2 h0 st0 k2 Hwf0 Hr0) as (_ & _ & _ & _ & R2).
+  destruct (R1 h st1 Hwf Hr1) as (A1 & S1 & U1). destruct (R2 h st2 Hwf Hr2) as (A2 & S2 & U2).
+  split; [congruence|]. split; [congruence|]. split; [congruence|].
+  intros size Hs Hn1 Hn2.
+  destruct (reach_inv P alloc h0 st0 HP Hwf0 Hr0) as (fs & bs & I & _).
+  assert (IR : forall k, Inv P (reset P k st0) [] []).
+  { intros k. pose proof (step_ok P alloc HP st0 (Reset k) fs bs I Logic.I) as H. cbn [step] in H.
+    destruct H as (fs' & bs' & I' & E). cbn [spec_step] in E. injection E as E _.
+    apply app_eq_nil in E. destruct E as [-> ->]. exact I'. }
+  pose proof (run_ok P alloc HP h _ [] [] (IR k1) Hwf) as H1. rewrite Hr1 in H1. destruct H1 as (f1 & b1 & I1 & _).
+  pose proof (run_ok P alloc HP h _ [] [] (IR k2) Hwf) as H3. rewrite Hr2 in H3. destruct H3 as (f2 & b2 & I2 & _).
+  rewrite (copy_buffer_ok P HP st1 f1 b1 size I1 Hs Hn1).
+  rewrite (copy_buffer_ok P HP st2 f2 b2 size I2 ltac:(lia) Hn2).
+  rewrite <- (abs_ok P st1 f1 b1 (proj1 I1)), <- (abs_ok P st2 f2 b2 (proj1 I2)). congruence.
 Qed.
 
 (* clear gives back every page exactly once and leaves the initial state *)
@@ -915,11 +937,11 @@ Proof. vm_compute. split; reflexivity. Qed.
 (* a four-page history, run by the kernel: hypotheses of the theorems are satisfiable and the functions compute *)
 Example small_history_runs :
   let P := 8 in
-  let h := [Emit [[1;2;3];[4;5]] (-5) 5; Emit [[6;7;8;9;10;11]] 0 6; Emit [[12;13;14;15;16;17;18;19;20]] (-14) 9; Reset;
+  let h := [Emit [[1;2;3];[4;5]] (-5) 5; Emit [[6;7;8;9;10;11]] 0 6; Emit [[12;13;14;15;16;17;18;19;20]] (-14) 9; Reset 2;
             Emit [[21]] (-1) 1] in
   Forall wf_op h /\
   option_map (fun st => (abs P st, start_off st, used st, length (pages st), length (spare st)))
-             (run P (fun _ => Some []) est_init h) = Some ([21], -1, 1, 1%nat, 3%nat).
+             (run P (fun _ => Some []) est_init h) = Some ([21], -1, 1, 1%nat, 2%nat).
 Proof.
   cbv zeta. split; [|vm_compute; reflexivity].
   repeat (apply Forall_cons; [vm_compute; auto|]). apply Forall_nil.
